@@ -84,7 +84,23 @@ def cp_minimize(interp, x):
 class CvxProblem:
     def __init__(self, cx, objective, constraints):
         self.objective = objective
-        self.constraints = list(constraints)
+        conc = V.concrete_iter(constraints)
+        if conc is None:
+            # a symbolic number of constraints built by a loop (one per task): the problem is identified by its objective, the
+            # number of constraints and the GENERIC constraint (canonical index)
+            from . import prims as P
+
+            class _I:
+                pass
+            fi = _I()
+            fi.cx = cx
+            seq = P.as_symseq(fi, constraints)
+            c0 = seq.get(z3.Int("I0!canon"))
+            self.constraints = seq
+            self.term = U("cp_problem_sym", ArrS, objective.term, lift(seq.length), c0.term if isinstance(c0, ATen) else lift(c0))
+            self.cx = cx
+            return
+        self.constraints = list(conc)
         terms = [objective.term] + [c.term if isinstance(c, ATen) else lift(c) for c in self.constraints]
         # the problem is identified by its objective and the ordered list of its constraints
         self.term = U("cp_problem_" + str(len(terms)), ArrS, *terms)
